@@ -901,6 +901,7 @@ func (c *Ctx) execMapUpdate(fr *Frame, x *ssa.MapUpdate, st *State, reach string
 	c.oblige("SAFE", "SAFE.nilmap", x.Pos(), reach, g, "assignment to entry in nil map")
 	c.assume(reach, g)
 	c.frameCheckRef(fr, m, "map", st, reach, x.Pos())
+	c.lockCheck(fr, x.Map, st, reach, x.Pos(), true)
 	mt := x.Map.Type().Underlying().(*types.Map)
 	hn, hs, vn, vs, _, _ := c.mapArrays(mt, st)
 	h := c.arr(st, hn, hs)
@@ -960,7 +961,8 @@ func (c *Ctx) finalGlobal(g *ssa.Global, st *State) Val {
 		}
 		// auto global invariant (checked by executing package initialisation, see globalinv.go):
 		// final pointer-typed package variables of the repository are non-nil and pairwise distinct per type
-		if _, isPtr := elem.Underlying().(*types.Pointer); isPtr && c.w.isRepoPkg(g.Pkg.Pkg.Path()) {
+		_, isMapT := elem.Underlying().(*types.Map)
+		if _, isPtr := elem.Underlying().(*types.Pointer); (isPtr || isMapT) && c.w.isRepoPkg(g.Pkg.Pkg.Path()) {
 			c.lines = append(c.lines, "(assert (not (= "+name+" 0)))")
 			ts := types.TypeString(elem, nil)
 			for other, ot := range c.gvTypes {
